@@ -429,7 +429,7 @@ class Check:
     def finish(self, rule_extra="", level_keys=None):
         os.makedirs(REPLAY, exist_ok=True)
         kf = [k for k in known_findings() if k.get("property") == self.prop]
-        known = {k["signature"]: k for k in kf if k.get("status") == "known"}
+        known = {k["signature"]: k for k in kf if k.get("status") == "known" and k.get("property") == self.prop}
         viol = []
         known_hit = {}
         oracle = [f for f in self.findings if f["kind"] == "oracle"]
@@ -442,6 +442,9 @@ class Check:
         lines = []
         for sig, f in known_hit.items():
             lines.append("KNOWN-FINDING: property=%s %s [%s]" % (self.prop, known[sig]["description"], sig))
+        for sig in known:
+            if sig not in known_hit:  # listed, schedule-dependent: say so rather than stay silent about a listed finding
+                lines.append("KNOWN-FINDING: property=%s %s [%s] (listed; not reproduced in this run)" % (self.prop, known[sig]["description"], sig))
         seen_sig = set()
         n_viol = 0
         for kind, f in viol:
